@@ -2,7 +2,7 @@
 From Coq Require Import String Ascii List Bool Arith Lia.
 From SKN Require Import Model.PathSafe.
 Import ListNotations.
-Open Scope string_scope.
+Local Open Scope string_scope.
 
 (** * split / join *)
 
